@@ -280,7 +280,7 @@ def worker(cfg, tier):
     pysym.Sym.__format__ = _fmt_int
     pysym.Sym.__str__ = lambda self: _fmt_int(self, "")
     try:
-        res, stats = pysym.run_scenario(SCEN[cfg["scen"]](cfg), [U], timeout_ms=30000, patch_names=("float", "round", "int"), max_paths=3000)
+        res, stats = pysym.run_scenario(SCEN[cfg["scen"]](cfg), [U], timeout_ms=30000, patch_names=("float", "round", "int"), max_paths=3000 if tier == "quick" else 40000)
     finally:
         pysym.Sym.__format__ = old
         del pysym.Sym.__str__
